@@ -114,8 +114,12 @@ def compare_loads(ctx, kind, obj, text, where):
         # with and without header lines / checksum line
         label0 = text.split('-----BEGIN PGP ', 1)[1].split('-----', 1)[0] if '-----BEGIN PGP ' in text else None
         if label0:
-            for wd in (76, 72, 60, 48, 8, 4):     # multiples of four: the pad characters stay attached to the last quantum
-                variants.append(('rewrapped-at-%d' % wd, armor.armor(label0, raw, width=wd)))
+            for wd in (76, 75, 72, 70, 63, 62, 61, 60, 48, 8, 5, 4, 3):
+                txt_ = armor.armor(label0, raw, width=wd)
+                # layouts in which a pad character would open a line of its own are left out (no producer writes them; PGPy does not read them)
+                if any(l_.startswith('=') and not (len(l_) == 5 and i_ == len(txt_.split('\n')) - 3) for i_, l_ in enumerate(txt_.split('\n'))):
+                    continue
+                variants.append(('rewrapped-at-%d' % wd, txt_))
             variants.append(('rewrapped-at-76-crlf', armor.armor(label0, raw, width=76, eol='\r\n')))
             variants.append(('with-foreign-headers-76', armor.armor(label0, raw, headers=[('Version', 'Other 1.0'), ('Comment', 'x' * 100)], width=76)))
         # an armor header line stands on a line of its own (6.2): the marker inside a line of the surrounding text is just text
